@@ -275,7 +275,7 @@ def step (st : Drv.CratesV2.St) (cmd : String) (args : List String) : Drv.Crates
     | none => (st, "bad-op crate var")
   | "crate.q", [v, "tracks"] =>
     match cr v with
-    | some c => (st, resText id ((walkBackG d.pe c).bind fun l => .ok (showIds (l.map (·.val)))))
+    | some c => (st, resText id ((walkBackG d.pe c).bind fun l => .ok (showIds (l.map (·.val.track)))))
     | none => (st, "bad-op crate var")
   | "crate.q", [v, "descendants"] =>
     match cr v with
